@@ -5,6 +5,7 @@ import Purr.Lemmas.BuilderL
 import Purr.Props.C11
 import Purr.Props.C09
 import Purr.Lemmas.BuildErrL
+import Purr.Lemmas.JoinPairL
 namespace Purr.C10
 open Purr Purr.Spec
 
@@ -216,6 +217,84 @@ theorem build_succeeds_iff (es : List Event) (hc : Conformant es) :
         simp at this
     obtain ⟨g, hg⟩ := buildNodes_total hall
     exact ⟨g, by unfold BState.build; rw [he]; simp [hg]⟩
+
+/-- THE TRAVERSAL'S JOINS COME IN MATCHED PAIRS (C08, stated on the event stream itself): for every well-formed adjacency
+    list, in the events the traversal hands to a follower every ring number is written an even number of times — each
+    opening is answered by exactly one closing — and no closing digit meets a defect: the two ends are never the same
+    atom, never already bonded, and their kinds always reconcile. -/
+theorem walk_joins_balanced (g : Graph) (hw : WellFormed g) (es : List (Event × Nat)) (ord : List Nat)
+    (h : walkRecL g = some (es, ord)) :
+    (∀ r, countR (es.map (·.1)) r % 2 = 0) ∧
+    ∀ pre ev post s1, es.map (·.1) = pre ++ ev :: post → brun .init pre = some s1 → ∀ a c, ¬ Defect s1 ev a c := by
+  obtain ⟨g', hb, _⟩ := rtc g hw es ord h
+  have hconf : Conformant (es.map (·.1)) := conformant_of_walkRec g es ord h
+  have := (build_succeeds_iff _ hconf).mp ⟨g', hb⟩
+  exact ⟨this.2, this.1⟩
+
+/-- THE TWO JOINS OF A RING NUMBER SIT ON THE TWO ATOMS OF A BOND: in the events of the traversal of a well-formed adjacency
+    list, whenever a ring number opened while atom (number) `c` of the stream was the head is written again while atom `a` is
+    the head, the atoms of the graph visited `a`-th and `c`-th are bonded to each other. -/
+theorem walk_join_pairs_are_bonds (g : Graph) (hw : WellFormed g) (es : List (Event × Nat)) (ord : List Nat)
+    (h : walkRecL g = some (es, ord)) (pre post : List Event) (bk : BondKind) (r : Rnum) (s1 : BState) (a c : Nat)
+    (hsplit : es.map (·.1) = pre ++ .join bk r :: post) (hpre : brun .init pre = some s1)
+    (hhead : s1.stack.head? = some a) (hopen : s1.opens.lookup r = some c) :
+    ∃ x y atomX, x ∈ ord ∧ y ∈ ord ∧ pos ord x = a ∧ pos ord y = c ∧ g[x]? = some atomX ∧ ∃ bd ∈ atomX.bonds, bd.tid = y := by
+  obtain ⟨g', hb, hrel, hnd, hcov⟩ := rtc g hw es ord h
+  have hconf : Conformant (es.map (·.1)) := conformant_of_walkRec g es ord h
+  obtain ⟨hnodef, _⟩ := (build_succeeds_iff _ hconf).mp ⟨g', hb⟩
+  -- the run through the whole stream
+  unfold build? at hb
+  cases hrun : brun .init (es.map (·.1)) with
+  | none => rw [hrun] at hb; cases hb
+  | some sF =>
+    rw [hrun] at hb
+    simp only [Option.map_some, Option.some.injEq] at hb
+    rw [hsplit, brun_append, hpre] at hrun
+    simp only [Option.bind_some, brun] at hrun
+    cases hstep : bstep s1 (.join bk r) with
+    | none => rw [hstep] at hrun; cases hrun
+    | some s2 =>
+      rw [hstep] at hrun
+      simp only at hrun
+      have herr : s2.errors = s1.errors := by
+        rcases bstep_errors_exact hstep with ⟨hsame, _⟩ | ⟨a', c', hd, _⟩
+        · exact hsame
+        · exact absurd hd (hnodef pre _ post s1 hsplit hpre a' c')
+      have hbond2 := bstep_close_records hstep hhead hopen herr
+      obtain ⟨esF, hvF, ed, hedF, htF⟩ := brun_keeps_id post hrun hbond2
+      -- the built graph
+      have heF : sF.errors = [] := by
+        unfold BState.build at hb
+        cases he : sF.errors with
+        | nil => rfl
+        | cons e l => rw [he] at hb; cases hb
+      have hbn : buildNodes sF.graph = .ok g' := by unfold BState.build at hb; rw [heF] at hb; exact hb
+      obtain ⟨nA, hnA, hneA⟩ := view_some hvF
+      obtain ⟨bs, hbs, hgA⟩ := (buildNodes_ok hbn a).1 nA hnA
+      obtain ⟨hbseq, _⟩ := nodeBonds_ok hbs
+      have hmemA : (⟨ed.kind, c⟩ : Bond) ∈ bs := by
+        rw [hbseq]
+        refine List.mem_map.mpr ⟨ed, by rw [hneA]; exact hedF, ?_⟩
+        simp [toBond, tidOf, htF]
+      -- back to the original graph through the relabelling
+      have ha : a < ord.length := by
+        rw [← hrel.1]
+        apply Nat.lt_of_not_le; intro hge
+        rw [List.getElem?_eq_none_iff.mpr hge] at hgA; cases hgA
+      have hxa : pos ord ord[a] = a := by unfold pos; exact List.Nodup.idxOf_getElem hnd a ha
+      obtain ⟨atomX, arr, hgx, _, hg'x⟩ := hrel.2 ord[a] (List.getElem_mem ha)
+      rw [hxa, hgA] at hg'x
+      simp only [Option.some.injEq, Atom.mk.injEq] at hg'x
+      rw [hg'x.2] at hmemA
+      obtain ⟨bd, hbd, hbdeq⟩ := List.mem_map.mp hmemA
+      simp only [Bond.mk.injEq] at hbdeq
+      have hbdX : bd ∈ atomX.bonds := (arrivalFirst_perm arr atomX.bonds).subset hbd
+      have hbdord : bd.tid ∈ ord := by
+        obtain ⟨_, _, tatom, htat, _⟩ := hw _ atomX hgx bd hbdX
+        apply (hcov bd.tid).mp
+        apply Nat.lt_of_not_le; intro hge
+        rw [List.getElem?_eq_none_iff.mpr hge] at htat; cases htat
+      exact ⟨ord[a], bd.tid, atomX, List.getElem_mem ha, hbdord, hxa, hbdeq.2, hgx, bd, hbdX, rfl⟩
 
 /-! non-vacuity: `C/1CC/1` (irreconcilable kinds) reports `Join(2, 0)`, and in `C1C` digit 0 is unmatched; the theorems
     above apply to both -/
